@@ -273,3 +273,27 @@ def is_call(t, key, args=None):
     elif t[1] != key:
         return False
     return args is None or tuple(t[2]) == tuple(args)
+
+
+def no_overrides(chk, crate, rule, what, trait, self_re, required, tolerated=()):
+    """An impl of `trait` for the anchored type must define exactly the required methods: a provided (default)
+    method that is overridden has no row, and the callers that std builds on it (nth -> skip/step_by, ne -> !=,
+    clone_from, ...) would silently change meaning.  Fail closed on any override outside `tolerated`."""
+    found = {}
+    for b in crate.bodies:
+        if b["kind"] != "AssocFn":
+            continue
+        imp = b.get("impl") or {}
+        if imp.get("trait") != trait:
+            continue
+        if not re.search(self_re, _strip_lt(imp.get("self_ty"))):
+            continue
+        found.setdefault(imp.get("id"), []).append(b["path"].split("::")[-1])
+    n = 0
+    for iid, ms in found.items():
+        extra = [m for m in ms if m not in required and m not in tolerated]
+        chk.ob(rule, "%s (%s)" % (what, trait.split("::")[-1]), not extra,
+               "overrides provided method(s) %s of %s: they have no row in the table and everything std derives from them changes with them" % (extra, trait),
+               kind="unmodelled-override", sample={"impl": what, "methods": ms})
+        n += 1
+    return n
